@@ -212,3 +212,34 @@ class SimPipe:
 class FakeStdin:
     def __init__(self, pipe):
         self.buffer = pipe
+
+    encoding = "utf-8"
+    errors = "strict"
+    mode = "r"
+    name = "<stdin>"
+
+    @property
+    def closed(self):
+        return getattr(self.buffer, "closed", False)
+
+    def isatty(self):
+        return False
+
+    def readable(self):
+        return True
+
+    def seekable(self):
+        return False
+
+    def writable(self):
+        return False
+
+    def fileno(self):
+        import io
+        raise io.UnsupportedOperation("fileno (simulated stdin)")
+
+    def close(self):
+        self.buffer.close()
+
+    def detach(self):
+        return self.buffer
